@@ -202,6 +202,7 @@ def dynamic_configs(F, R):
 
 
 def check(F, R, tier):
+    lib.cas_loops_fresh(R, F, r'^iceoryx2_bb_lock_free::mpmc::container::Container', 2, 'a decision computed once before the loop is stale after the first failed CAS')
     container(F, R)
     dynamic_configs(F, R)
 
